@@ -710,6 +710,41 @@ func renderOffloadRules(nft, offload bool, ver int, managedSetName string) (out 
 	return out, nil
 }
 
+// ---------------------------------------------------------------- which QoS controls does the renderer act on in the filter chains?
+
+var limitRenderer rules.RuleRenderer
+
+// rendersLimits renders the real per-workload filter chains (nftables flavour) for the given QoS controls and reports
+// whether any rule carries a packet-rate or connection-limit action.  These are the rules an offloaded flow would skip.
+func rendersLimits(q *proto.QoSControls) (res bool, err error) {
+	defer func() {
+		if x := recover(); x != nil {
+			err = fmt.Errorf("endpoint chain renderer panicked: %v", x)
+		}
+	}()
+	if limitRenderer == nil {
+		limitRenderer = rules.NewRenderer(rules.Config{
+			IPSetConfigV4: ipsets.NewIPVersionConfig(ipsets.IPFamilyV4, rules.IPSetNamePrefix, nil, nil),
+			IPSetConfigV6: ipsets.NewIPVersionConfig(ipsets.IPFamilyV6, rules.IPSetNamePrefix, nil, nil),
+			MarkAccept:    0x8, MarkPass: 0x10, MarkScratch0: 0x20, MarkScratch1: 0x40, MarkDrop: 0x80,
+			MarkEndpoint: 0xff00, MarkNonCaliEndpoint: 0x0100,
+			FilterDenyAction: "DROP", VXLANPort: 4789, VXLANVNI: 4096,
+			WorkloadIfacePrefixes:    []string{"cali"},
+			NFTablesFlowTableOffload: true,
+		}, true)
+	}
+	for _, ch := range limitRenderer.WorkloadEndpointToIptablesChains("cali0", nil, true, nil, nil, q) {
+		for i := range ch.Rules {
+			switch ch.Rules[i].Action.(type) {
+			case nftables.LimitPacketRateAction, *nftables.LimitPacketRateAction,
+				nftables.LimitNumConnectionsAction, *nftables.LimitNumConnectionsAction:
+				res = true
+			}
+		}
+	}
+	return res, nil
+}
+
 // ---------------------------------------------------------------- main
 
 func main() {
@@ -800,6 +835,7 @@ func main() {
 			return a
 		}
 		otherIdx := 0
+		var limits []string
 		for _, o := range ops {
 			sampleOps = append(sampleOps, o.text())
 			switch o.kind {
@@ -864,6 +900,25 @@ func main() {
 					addrChange = true
 				}
 				sw[o.id] = shadow{needs, famNets(o)}
+				if !o.nilEP {
+					var qc *proto.QoSControls
+					if m, ok := o.msg(0).(*proto.WorkloadEndpointUpdate); ok {
+						qc = m.Endpoint.QosControls
+					}
+					lim, lerr := rendersLimits(qc)
+					if lerr != nil {
+						fatal("%v", lerr)
+					}
+					qs := "None"
+					if o.qos != nil {
+						p := make([]string, 14)
+						for k, v := range o.qos {
+							p[k] = zCoq(v)
+						}
+						qs = "Some (QC " + strings.Join(p, " ") + ")"
+					}
+					limits = append(limits, fmt.Sprintf("(%s, %s)", qs, bcoq(lim)))
+				}
 				tags = append(tags, "qos:"+map[bool]string{true: "nil-endpoint", false: o.qkind}[o.nilEP])
 			case "wr":
 				delete(sw, o.id)
@@ -923,8 +978,8 @@ func main() {
 		for k, o := range ops {
 			opc[k] = o.coq()
 		}
-		coq := fmt.Sprintf("{| c_ver := V%d; c_ops := [%s]; c_outs := [%s]; c_nft := %s; c_offload := %s; c_rules := [%s] |}",
-			ver, strings.Join(opc, "; "), strings.Join(outs, "; "), bcoq(nft), bcoq(offload), strings.Join(rcoq, "; "))
+		coq := fmt.Sprintf("{| c_ver := V%d; c_ops := [%s]; c_outs := [%s]; c_nft := %s; c_offload := %s; c_rules := [%s]; c_limits := [%s] |}",
+			ver, strings.Join(opc, "; "), strings.Join(outs, "; "), bcoq(nft), bcoq(offload), strings.Join(rcoq, "; "), strings.Join(limits, "; "))
 		for _, f := range []struct {
 			on  bool
 			tag string
